@@ -1,12 +1,23 @@
 """C38 cqlengine routing keys equal the partition key Cassandra hashes.
 
-Engine N.  Models are generated with 1-3 partition-key columns over every key-capable cqlengine
-column class (plus a clustering column, a static column and a data column of *other* types);
-every statement kind cqlengine routes (INSERT via create, instance UPDATE / DELETE, query-set
-SELECT / COUNT / UPDATE / DELETE) is executed against the fake session and the
+Engine N.  Two layers.
+
+Direct models: generated with 1-3 partition-key columns over every key-capable cqlengine column
+class (plus a clustering column, a static column and a data column of *other* types); every
+statement kind cqlengine routes (INSERT via create, instance UPDATE / DELETE, query-set SELECT /
+COUNT / UPDATE / DELETE) is executed against the fake session and the
 `SimpleStatement.routing_key` it carries is compared with the independent composite encoding
-(`vt.spec.minicql.routing_key`).  Statements that do not fix the whole partition key by
-equality must carry no routing key.
+(`vt.spec.minicql.routing_key`).  Statements that do not fix the whole partition key by equality
+must carry no routing key.
+
+Model families: class-definition histories in which the key columns are inherited (abstract key
+mixins composed in every order, abstract models composing mixins, an abstract base with a
+two-column key, own key columns added by the subclass, inherited key columns overridden with
+another type, a concrete parent model, an abstract base with a promoted primary key, polymorphic
+children).  cqlengine shares the column objects of a base with all subclasses, so the histories are
+every ordered pair of model shapes and the whole shape list in rotated orders; the same statements
+are run on *every* model of the family after the last class has been defined, against the
+partition key derived independently from the documented inheritance rule.
 """
 import datetime
 import decimal
@@ -18,17 +29,27 @@ from vt.core import Part, HarnessError
 META = {
     'level': 'exploration',
     'engine': 'N',
-    'technique': 'bounded-exhaustive enumeration of generated models x key values x statement kinds vs independent key encoding',
+    'technique': 'bounded-exhaustive enumeration of generated models and model-definition histories x key values x statement kinds vs independent key encoding',
     'text': 'For every model with 1, 2 or 3 partition-key columns drawn from the 18 key-capable cqlengine column '
             'classes (all singles and ordered pairs; triples over a reduced class list in quick, all classes in thorough), '
             'boundary key values per class, and each routed statement kind (create/INSERT, instance update/delete, '
             'query-set select/count/update/delete with the filter kwargs in declaration and in reversed order), the routing_key of the '
             'SimpleStatement handed to the session is compared byte for byte with an independently written encoding '
             '(single component raw; composite = 2-byte length + bytes + 0x00 per component); statements fixing only '
-            'part of the key, or fixing a component with IN / a range operator, must carry none.',
+            'part of the key, or fixing a component with IN / a range operator, must carry none.  The same is checked for '
+            'models that inherit their key columns: 45 model shapes (every ordered selection of 1-3 abstract one-column key mixins, '
+            'with and without an own key column; abstract models composing two mixins; an abstract base with a two-column key; '
+            'subclasses overriding an inherited key column with another class, alone and next to an own key column; children of a '
+            'concrete parent model; an abstract base whose primary key is promoted; polymorphic children) are defined in families that '
+            'share the base classes, for every ordered pair of shapes and for the whole shape list in rotated orders forwards and '
+            'backwards, under 2 (quick) / 21 (thorough) assignments of column classes to the inherited columns; every concrete model '
+            'of a family, not only the last one, is exercised after the whole family has been defined.',
     'note': 'The session is a fake that records execute() calls; value encodings of the reference are written from the '
             'protocol specification (vt/spec/minicql.py, self-tested on the vectors of tests/unit/test_marshalling.py). '
-            'Batches are sent as plain strings by cqlengine and carry no routing key; they are outside the statement.',
+            'Batches are sent as plain strings by cqlengine and carry no routing key; they are outside the statement. '
+            'The partition key expected for an inheriting model is derived from the documented rule (columns of the bases in base '
+            'order, then own columns; an overriding column keeps the inherited place) and cross-checked against the CREATE TABLE text '
+            'cqlengine generates for the model when it is defined.',
     'design_ref': 'C38',
 }
 
@@ -308,7 +329,9 @@ SHAPE_IDS = list(SHAPES)
 
 # type assignments of the slots T, B, U (mixin columns), Z (own key column), O (overriding column)
 SLOTS = 'TBUZO'
-QUICK_ASSIGN = [('Integer', 'BigInt', 'Text', 'UUID', 'Blob')]
+ASSIGN = [('Integer', 'BigInt', 'Text', 'UUID', 'Blob'),          # fixed-width values that fit each other's type, and unlike classes
+                ('Integer', 'Integer', 'Integer', 'Integer', 'BigInt'),  # one class for all mixins: exchanged components never raise
+                ('Text', 'Blob', 'VarInt', 'Boolean', 'Ascii')]          # variable-length encodings
 
 
 def ref_columns(bases, own):
@@ -434,7 +457,7 @@ def run_family(part, fam):
         def fp(why, label, composite, exc=None, group=group, stage=stage):
             return 'C38/family/%s/%s/%s' % (group, stage, why if exc is None else '%s-%s' % (why, exc))
         part.count('family_models')
-        exercise(part, cls, keys, values, case, True, fp, mark='%s#%d' % (hist, idx))
+        exercise(part, cls, keys, values, case, True, fp, mark='f%d#%d' % (fam['serial'], idx))
 
 
 def run_chunk(args):
@@ -472,10 +495,15 @@ def cases(ctx):
 
 
 def assignments(ctx):
-    if ctx.quick:
-        return list(QUICK_ASSIGN)
-    names = [n for n, _, _ in KEY_TYPES]
-    return [tuple(names[(i + j) % len(names)] for j in range(len(SLOTS))) for i in range(len(names))]
+    out = list(ASSIGN[:2])
+    if not ctx.quick:
+        out.append(ASSIGN[2])
+        names = [n for n, _, _ in KEY_TYPES]
+        for i in range(len(names)):
+            a = tuple(names[(i + j) % len(names)] for j in range(len(SLOTS)))
+            if a not in out:
+                out.append(a)
+    return out
 
 
 def families(ctx):
